@@ -319,6 +319,14 @@ def run_js(res, spec):
                         continue
                     ls = rng.choice(LINE_SEPS)
                     cases.append({'table': t, 'delim': dlm, 'policy': policy, 'line_separator': ls, 'encoding': enc, 'also_stream': True})
+        if spec['i'] % 3 == 0:
+            # long narrow tables: thousands of short records per stream chunk (the reader's record queue grows in bursts)
+            for nrec, policy, dlm in ((5000, 'simple', ','), (9000, 'quoted_rfc', ';'), (6000, 'monocolumn', ''), (4097, 'quoted', '::'), (4500, 'simple', '\t')):
+                t = [[str(i)] + ([] if policy == 'monocolumn' else ['v' if i % 100 else 'q"%d' % i]) for i in range(nrec)]
+                if policy == 'simple':
+                    t = [[r[0], 'v'] for r in t]
+                cases.append({'table': t, 'delim': dlm, 'policy': policy, 'line_separator': rng.choice(['\n', '\r\n']), 'encoding': rng.choice(['utf-8', 'binary']), 'also_stream': True})
+                res.count('js_long_narrow_tables')
         for off in range(0, len(cases), 400):
             chunk = cases[off:off + 400]
             outs = node.call({'op': 'roundtrip_batch', 'cases': chunk})['results']
@@ -327,7 +335,17 @@ def run_js(res, spec):
                 enc = 'latin-1' if c['encoding'] == 'binary' else 'utf-8'
                 res.evaluations += 1
                 res.count('js_roundtrips')
-                case = {'table': t, 'policy': policy, 'dlm': dlm, 'encoding': enc, 'line_sep': c['line_separator'], 'engine': 'js'}
+                case = {'table': t if len(t) < 50 else t[:3] + [['... %d records' % len(t)]], 'policy': policy, 'dlm': dlm, 'encoding': enc, 'line_sep': c['line_separator'], 'engine': 'js'}
+                if len(t) >= 50:
+                    # report sizes, not tables
+                    exp = expected_table(t, policy)
+                    bad = o['werror'] is not None or o['rerror'] is not None or o['records'] != exp
+                    sbad = [si for si, st in enumerate(o.get('stream') or []) if st['error'] is not None or st['stuck'] or st['records'] != exp]
+                    res.count('js_stream_roundtrips', len(o.get('stream') or []))
+                    if bad or sbad:
+                        res.violation('js-stream-roundtrip-differs' if not bad else 'js-roundtrip-differs', 'JS: a table of %d short records (%s %r %s) read back as %s records by the bulk reader (errors %r %r) and as %r records by the stream reader (one chunk / two chunks; errors %r)' % (
+                            len(t), policy, dlm, enc, len(o['records'] or []), o['werror'], o['rerror'], [len(st['records'] or []) for st in (o.get('stream') or [])], [st['error'] for st in (o.get('stream') or [])]), case)
+                    continue
                 if policy == 'monocolumn' and any(len(r) != 1 for r in t):
                     continue
                 if policy in ('simple', 'whitespace') and dlm and any(dlm in f for rec in t for f in rec):
@@ -438,9 +456,9 @@ def run_shard(spec, res):
 
 def summarize(tier, seed, m):
     return {
-        'rule': 'exhaustive small tables (1x1 with fields up to length %d, 1x2 / 2x1 up to length 2, 2x2 and ragged up to length 1) over {quote, space, tab, CR, LF, a, e-acute, delimiter characters} for each of %d dialects (policies simple/quoted/quoted_rfc x delimiters %r, whitespace, monocolumn) x line separators x encodings {None, utf-8, latin-1}; random larger tables incl. None cells; a table holding all 256 latin-1 code points; file-to-file leg through query_csv; JS writer/reader leg. Representability decided by the reference writer/reader pair. distinct_nontrivial = distinct representable (table, dialect) cases containing at least one special character.' % (3 if tier == 'quick' else 4, len(dialects()), DELIMS),
+        'rule': 'exhaustive small tables (1x1 with fields up to length %d, 1x2 / 2x1 up to length 2, 2x2 and ragged up to length 1) over {quote, space, tab, CR, LF, a, e-acute, delimiter characters} for each of %d dialects (policies simple/quoted/quoted_rfc x delimiters %r, whitespace, monocolumn) x line separators x encodings {None, utf-8, latin-1}; random larger tables incl. None cells; a table holding all 256 latin-1 code points; file-to-file leg through query_csv; JS writer/reader leg. Representability decided by the reference writer/reader pair. JS: tables of 4097-9000 short records (thousands per stream chunk) written and read back by the bulk and the stream reader; distinct_nontrivial = distinct representable (table, dialect) cases containing at least one special character.' % (3 if tier == 'quick' else 4, len(dialects()), DELIMS),
         'exhaustive': True,
-        'required': ['nonstring_delimiter_clause_checks', 'js_nonstring_delimiter_clause_checks', 'header_delimiter_clause_checks', 'js_stream_roundtrips', 'representable_roundtrips', 'delimiter_clause_checks', 'none_clause_checks', 'file_to_file_runs', 'latin1_all_byte_tables'],
+        'required': ['js_long_narrow_tables', 'nonstring_delimiter_clause_checks', 'js_nonstring_delimiter_clause_checks', 'header_delimiter_clause_checks', 'js_stream_roundtrips', 'representable_roundtrips', 'delimiter_clause_checks', 'none_clause_checks', 'file_to_file_runs', 'latin1_all_byte_tables'],
         'assumptions': ['rv.model.refcsv write_table/read_text decide representability exactly as the quantifier prescribes'],
     }
 
